@@ -74,7 +74,7 @@ def acctArg (mn pw sel : String) : Option Cli.Account :=
 
 def streamArg (s : String) : Option (List (Option Bytes)) :=
   if s == "-" then some [] else
-  (s.splitOn ",").mapM fun t => if t == "fail" then some none else (unhex t).map some
+  (s.splitOn ",").mapM fun t => if t.startsWith "fail" then some none else (unhex t).map some
 
 def cliOut (r : Res Bytes) : Resp := ofRes r fun b => [hx b]
 
@@ -162,7 +162,7 @@ def runOp (env : Env) (parts : List String) : Resp :=
       ofRes r fun (ph, n) => [hxStr ph, toString n, hxStr ph]
     | none => .harness "bad arg"
   | ["mn.random", n, ent] =>
-    match n.toNat?, (if ent == "fail" then some none else (unhex ent).map some) with
+    match n.toNat?, (if ent.startsWith "fail" then some none else (unhex ent).map some) with
     | some n, some inject =>
       -- the oracle hands out the first `k` injected bytes (failure if fewer are available) and
       -- logs the request, exactly like the harness's `getentropy`
@@ -350,7 +350,7 @@ def judgeOp (env : Env) (parts : List String) (resp : String) : Verdict :=
     | some s => judgeMnParse s resp
     | none => .skip
   | ["mn.random", n, ent] =>
-    match n.toNat?, (if ent == "fail" then some none else (unhex ent).map some) with
+    match n.toNat?, (if ent.startsWith "fail" then some none else (unhex ent).map some) with
     | some n, some inject => judgeMnRandom n inject resp
     | _, _ => .skip
   | ["tx.parse", j] => match unhex j with
@@ -469,6 +469,10 @@ def judgeOp (env : Env) (parts : List String) (resp : String) : Verdict :=
     | none => .skip
   | _ => .skip
 
+/-- decimal digits only (Lean's `String.toNat?` also accepts `_` separators, which no option parser here does) -/
+def strictNat? (s : String) : Option Nat :=
+  if !s.isEmpty && s.all Char.isDigit then s.toNat? else none
+
 def judgeCli (env : Env) (parts : List String) (resp : String) : Judge.Verdict :=
   let X : Cli.Ctx Prim.Secp.Pt := ⟨P, CV, env.nfkd.nfkd⟩
   match parts with
@@ -488,6 +492,10 @@ def judgeCli (env : Env) (parts : List String) (resp : String) : Judge.Verdict :
   | ["cli.hash_td", j, mh] => match unhex j with
     | some j => Judge.judgeCliHashTd j (mh == "1") resp
     | none => .skip
+  | ["cli.hash_tx", j, sig] =>
+    match unhex j, (if sig == "none" then some none else (utf8Arg sig).map fun t => some (String.ofList t)) with
+    | some j, some σ => Judge.judgeCliHashTx j σ resp
+    | _, _ => .skip
   | ["cli.hash_message", m] => match unhex m with
     | some m => Judge.judgeCliDigest (Judge.eip191 m) resp
     | none => .skip
@@ -535,7 +543,7 @@ def judgeCli (env : Env) (parts : List String) (resp : String) : Judge.Verdict :
       let t := String.ofList pre
       let digits := (t.drop 2).toString.toLower
       let isHex := t.startsWith "0x" && digits.all fun c => c.isDigit || ('a' ≤ c && c ≤ 'f')
-      match (String.ofList len).toNat? with
+      match strictNat? (String.ofList len) with
       | none => .skip
       | some n =>
         if !(n == 12 || n == 15 || n == 18 || n == 21 || n == 24) || !isHex then .skip else
@@ -569,7 +577,7 @@ def judgeCli (env : Env) (parts : List String) (resp : String) : Judge.Verdict :
   | ["cli.new", len, stream] =>
     match utf8Arg len, streamArg stream with
     | some len, some st =>
-      match (String.ofList len).toNat? with
+      match strictNat? (String.ofList len) with
       | none => .skip
       | some n =>
         let inject : Option Bytes := match st with | some b :: _ => some b | _ => none
